@@ -5,11 +5,12 @@ ones the theorems are about) and the executable spec predicates, writes one line
 import SA.Driver.Wire
 import SA.Driver.OpsC01
 import SA.Driver.OpsC02
+import SA.Driver.OpsC04
 
 open SA SA.Wire
 
 def allOps : List (String × (Args → Except String String)) :=
-  SA.Ops.opsC01 ++ SA.Ops.opsC02
+  SA.Ops.opsC01 ++ SA.Ops.opsC02 ++ SA.Ops.opsC04
 
 def step (line : String) : String :=
   let (op, args) := parseLine line
